@@ -1025,10 +1025,17 @@ func firstDiff(a, b []byte) string {
 	la, lb := strings.Split(string(a), "\n"), strings.Split(string(b), "\n")
 	for i := 0; i < len(la) && i < len(lb); i++ {
 		if la[i] != lb[i] {
-			return fmt.Sprintf("line %d: %q vs %q", i+1, la[i], lb[i])
+			return fmt.Sprintf("line %d: %q vs %q", i+1, clip(la[i], 160), clip(lb[i], 160))
 		}
 	}
 	return fmt.Sprintf("%d vs %d lines", len(la), len(lb))
+}
+
+func clip(s string, n int) string {
+	if len(s) > n {
+		return s[:n] + "..."
+	}
+	return s
 }
 
 func shorten(s string, w *world) string { return strings.ReplaceAll(s, w.cache, "$CACHE") }
